@@ -60,7 +60,10 @@ def check_spec(spec, kind="mcfs", only=None, ignore=(), open_kw=None, attitude_p
             if prepare is not None:
                 prepare(prod)
             for kw in pre:
-                prod.open(**kw)
+                if callable(kw):
+                    kw(prod)
+                else:
+                    prod.open(**kw)
             tree = prod.open(**(open_kw or {}))
             act = refmodel.semantic(tree)
         except Exception as e:
@@ -85,3 +88,24 @@ def check_spec(spec, kind="mcfs", only=None, ignore=(), open_kw=None, attitude_p
         seen.add(key)
         fails.append({"sig": sig, "detail": f"{leaf}: expected {str(e)[:90]} got {str(a)[:90]}"})
     return {"ok": not fails, "failures": fails, "n_leaves": len(exp), "unverified": unv, "actual": act, "expected": exp}
+
+
+def check_replaced(spec_a, spec_b, kind="local", keep_mtime=True, only=None, ignore=(), open_kw=None):
+    """the product is opened as A, then the files in which B differs are overwritten in place (optionally keeping their
+    modification time, like cp -p / rsync -t / an unpacked archive) and it is opened again: the tree must be B's"""
+    files_a, _ = synth.build(spec_a)
+    files_b, resolved_b = synth.build(spec_b)
+    changed = [n for n in files_b if files_a.get(n) != files_b[n]]
+    assert changed and set(files_a) == set(files_b), "A and B must have the same files"
+
+    def to_a(prod):
+        for n in changed:
+            prod.put(n, files_a[n])
+
+    def to_b(prod):
+        for n in changed:
+            prod.put(n, files_b[n], keep_mtime=keep_mtime)
+
+    out = check_spec(spec_b, kind=kind, only=only, ignore=ignore, open_kw=open_kw, files=files_b, resolved=resolved_b, prepare=to_a, pre=[open_kw or {}, to_b])
+    out["changed_files"] = changed
+    return out
